@@ -26,7 +26,8 @@ pub struct DsoModel {
     pub ldbase: u64,
     pub dynamic: u64,
     pub dyn_bytes: Vec<u8>,
-    pub links: Vec<(u64, String, u64)>,
+    /// (load address, name - None when the target's bytes are not UTF-8, dynamic section)
+    pub links: Vec<(u64, Option<String>, u64)>,
 }
 
 /// The linker list that (phdr, phnum) leads to, read from simulated memory.
@@ -81,7 +82,7 @@ pub fn dso_model(k: &Kernel, phdr: u64, phnum: u64) -> Option<DsoModel> {
         let l_name = le64(&lm, 8);
         let l_ld = le64(&lm, 16);
         cur = le64(&lm, 24);
-        let mut name = String::new();
+        let mut name = Some(String::new());
         if l_name > 0 {
             // a 256-byte read that runs into unreadable memory legitimately comes back short
             let avail = k.accessible_run(l_name, 256, false) as usize;
@@ -90,7 +91,7 @@ pub fn dso_model(k: &Kernel, phdr: u64, phnum: u64) -> Option<DsoModel> {
             }
             let nb = k.read_mem_captured(l_name, avail);
             let end = nb.iter().position(|c| *c == 0).unwrap_or(nb.len());
-            name = String::from_utf8(nb[..end].to_vec()).ok()?;
+            name = String::from_utf8(nb[..end].to_vec()).ok();
         }
         links.push((l_addr, name, l_ld));
         guard += 1;
@@ -263,10 +264,13 @@ pub fn check(sc: &Scenario, res: &RunResult) -> Vec<Violation> {
     if let (Some(phnum), Some(phdr)) = (phnum, phdr) {
         if let Some(m) = dso_model(k, phdr, phnum) {
             match &dec.dso {
+                // a name that is not UTF-8 cannot be recorded: the stream may then be left out
+                None if m.links.iter().any(|l| l.1.is_none()) => {}
                 None => out.push(v("C18", "dso-missing", format!("linker list with {} objects is reachable from phdr {:#x} but no stream was written", m.links.len(), phdr))),
                 Some(ds) => {
                     let got: Vec<(u64, String, u64)> = ds.links.iter().map(|(a, n, l)| (*a, n.clone().unwrap_or_default(), *l)).collect();
-                    if got != m.links {
+                    let same = got.len() == m.links.len() && got.iter().zip(m.links.iter()).all(|(g, w)| g.0 == w.0 && g.2 == w.2 && w.1.as_ref().map(|n| *n == g.1).unwrap_or(true));
+                    if !same {
                         out.push(v("C18", "dso-links-differ", format!("{} objects recorded, {} in the target's list (phdr {:#x}, direct auxv {:?})", got.len(), m.links.len(), phdr, opts.direct_auxv)));
                     }
                     if ds.version != m.version || ds.brk != m.brk || ds.ldbase != m.ldbase {
